@@ -96,6 +96,12 @@ class C19(Prop):
     technique = "Lean-verified rational embedding checker + Lean model of the colouring stage; exact-oracle differential testing"
     theorems = [
         "PrefVerif.Specs.realises_iff",
+        "PrefVerif.C19.lp_sound",
+        "PrefVerif.C19.lp_complete",
+        "PrefVerif.C19.lp_feasible_iff",
+        "PrefVerif.C19.lp_wellFormed",
+        "PrefVerif.C19.lp_model_sound",
+        "PrefVerif.C19.nogrey_partial",
     ]
     rule = ("profiles over alternatives 1..m (m <= 5): Euclidean by construction (random generic positions), random "
             "strict profiles, single orders; storage order shuffled; oracle = z3 over all axes; non-trivial = >= 2 "
@@ -134,7 +140,11 @@ class C19(Prop):
         from preflibtools.properties.subdomains.ordinal.euclidean import is_one_euclidean
         prof = [(tuple((a,) for a in o), 1) for o in case["orders"]]
         inst = gen.make_ordinal(prof, alts=case["alts"], data_type="soc")
-        r = call(is_one_euclidean, inst, limit=60)
+        from harness import ilpcap
+        store = []
+        with ilpcap.capture(store):
+            r = call(is_one_euclidean, inst, limit=60)
+        lp_capture = store[0] if len(store) == 1 else ("none" if not store else "several")
         n = len(case["orders"])
         if r[0] == "ok":
             v, y = r[1]
@@ -147,7 +157,7 @@ class C19(Prop):
                     emb = "malformed"
             r = ("ok", [bool(v), emb])
         truth, cert = z3_oracle(case["alts"], case["orders"])
-        obs = {"res": r, "truth": truth}
+        obs = {"res": r, "truth": truth, "lp": lp_capture}
         if cert is not None:
             obs["oracle_cert"] = {"voters": [frac_json(x) for x in cert[0]],
                                   "alts": [[a, frac_json(p)] for a, p in cert[1].items()]}
@@ -167,7 +177,8 @@ class C19(Prop):
             embs.append(self._emb(r[1][1]))
         if "oracle_cert" in obs:
             embs.append(self._emb(obs["oracle_cert"]))
-        return [{"op": "c19.check", "alts": case["alts"], "orders": case["orders"], "embeddings": embs}]
+        return [{"op": "c19.check", "alts": case["alts"], "orders": case["orders"], "embeddings": embs},
+                {"op": "euc.lp", "alts": case["alts"], "orders": case["orders"]}]
 
     def nontrivial_key(self, case, obs):
         return repr(case) if len(case["orders"]) >= 2 and len(case["alts"]) >= 3 else None
@@ -203,6 +214,23 @@ class C19(Prop):
         if v and impl_ok is not True:
             P(f"returned positions do not realise the votes (missing voter/alternative or a ranking contradicted): {emb}",
               "embedding")
+        # correspondence with the Lean model of everything up to the LP (alternatives 1..m, m <= 7)
+        mlp = replies[1]
+        cap = obs["lp"]
+        reached_model = mlp.get("axis") is not None and mlp["sc"] and mlp["colouringOk"]
+        reached_impl = isinstance(cap, dict)
+        if reached_model != reached_impl:
+            out.append(Problem("disagreement", case, f"model {'reaches' if reached_model else 'does not reach'} the LP, "
+                               f"implementation {'does' if reached_impl else 'does not'}", "model/lp-reached", det))
+        elif reached_impl:
+            from collections import Counter
+            from harness import ilpcap
+            mine, theirs = Counter(ilpcap.model_constraints(mlp)), Counter(cap["constraints"])
+            if mine != theirs:
+                diff = list((theirs - mine).items())[:2] + list((mine - theirs).items())[:2]
+                out.append(Problem("disagreement", case, "the LP handed to the solver differs from the model's "
+                                   f"({sum((theirs - mine).values())} extra, {sum((mine - theirs).values())} missing), e.g. {diff}",
+                                   "model/lp-constraints", det))
         return out
 
     def shrink_candidates(self, case):
